@@ -22,6 +22,7 @@ pub struct Info {
     pub has_heap: bool,
     pub positional: bool,
     pub ordered: bool,
+    pub no_render: bool,
 }
 
 pub fn info<S: Spec>(e: &Entry<S>) -> Info {
@@ -40,6 +41,7 @@ pub fn info<S: Spec>(e: &Entry<S>) -> Info {
         n_forms: e.forms.len(),
         has_heap: e.has_heap,
         ordered: e.cmp.is_some(),
+        no_render: e.render.is_none(),
     }
 }
 
@@ -58,6 +60,9 @@ fn zst_tweak(i: &Info, c: &mut LifeCfg, depth: &mut usize) {
         c.n_forms = c.n_forms.min(2);
         c.n_values = 5;
         c.use_large = false;
+        *depth = (*depth).min(4);
+    } else if i.no_render {
+        // no complete rendering of the state (Huffman inside a slice): every history is its own state
         *depth = (*depth).min(4);
     }
 }
@@ -341,7 +346,7 @@ pub fn jobs(prop: &str, tier: &str) -> Vec<Job> {
             c.coded_merges = true;
             c.use_large = false;
             c.n_values = 9;
-            life(&mut out, c, if thorough { 5 } else { 3 }, if thorough { &[(48, 2, 0)] } else { &[(24, 1, 0)] }, &|i| i.strings, &|i, c| {
+            life(&mut out, c, if thorough { 5 } else { 3 }, if thorough { &[(32, 2, 0)] } else { &[(24, 1, 0)] }, &|i| i.strings, &|i, c| {
                 // compositions of strings use their 4 structured values; plain string regions the 9 adversarial strings
                 if i.name.starts_with("StringRegion") || i.name.starts_with("Collapse") || i.name.starts_with("Consecutive") {
                     c.use_large = true;
